@@ -1575,15 +1575,16 @@ impl RustGenerator {
             Instruction::GetArrayElem(arr, idx, elem_ty) => {
                 let dest = self.reg_name(dst)?;
                 let arr_expr = self.word0_expr(arr)?;
-                let idx_expr = self.word0_expr(idx)?;
+                // the index may be a tuple/record field (an address): use the element it points to
+                let idx_expr = self.scalar_word_expr(func, idx)?;
                 let elem_words = elem_ty.word_size() as usize;
                 writer.line("{")?;
                 writer.indented(1, |writer| {
+                    writer.line(format!("let index_value = word_to_f64({idx_expr});"))?;
                     writer.line(format!("let array = self.arrays.get({arr_expr})?;"))?;
                     writer.line(
                         "let len = if array.elem_size_words == 0 { 0usize } else { array.data.len() / array.elem_size_words };",
                     )?;
-                    writer.line(format!("let index_value = word_to_f64({idx_expr});"))?;
                     writer.line(
                         "let index = if len == 0 { 0usize } else if index_value.is_nan() { 0usize } else { (index_value as i64).clamp(0, (len - 1) as i64) as usize };",
                     )?;
@@ -1612,16 +1613,17 @@ impl RustGenerator {
             }
             Instruction::SetArrayElem(arr, idx, value, elem_ty) => {
                 let arr_expr = self.word0_expr(arr)?;
-                let idx_expr = self.word0_expr(idx)?;
+                // the index may be a tuple/record field (an address): use the element it points to
+                let idx_expr = self.scalar_word_expr(func, idx)?;
                 let elem_words = elem_ty.word_size() as usize;
                 let value_expr = self.context_value_slice_expr(func, value, *elem_ty)?;
                 writer.line("{")?;
                 writer.indented(1, |writer| {
+                    writer.line(format!("let index_value = word_to_f64({idx_expr});"))?;
                     writer.line(format!("let array = self.arrays.get_mut({arr_expr})?;"))?;
                     writer.line(
                         "let len = if array.elem_size_words == 0 { 0usize } else { array.data.len() / array.elem_size_words };",
                     )?;
-                    writer.line(format!("let index_value = word_to_f64({idx_expr});"))?;
                     writer.line(
                         "let index = if len == 0 { 0usize } else if index_value.is_nan() { 0usize } else { (index_value as i64).clamp(0, (len - 1) as i64) as usize };",
                     )?;
